@@ -491,4 +491,66 @@ theorem takeN_length (C : Char → Bool) (n : Nat) (s e : List Char) (h : takeN 
   obtain ⟨w, rfl, hl, _⟩ := (takeN_some C n s e).1 h
   simp; omega
 
+/-! ## continuations that always match: the preferred path is the greedy one -/
+
+def Total (r : Re) : Prop := ∀ s, r.ends s ≠ []
+
+theorem head?_flatMap_total {l : List (List Char)} {k : List Char → List (List Char)} (hk : ∀ a, k a ≠ []) :
+    (l.flatMap k).head? = l.head?.bind (fun a => (k a).head?) := by
+  cases l with
+  | nil => rfl
+  | cons a t =>
+    obtain ⟨b, bs, hb⟩ := List.exists_cons_of_ne_nil (hk a)
+    simp [List.flatMap_cons, hb]
+
+theorem head_seq_total (a b : Re) (hb : Total b) (s : List Char) :
+    ((Re.seq a b).ends s).head? = (a.ends s).head?.bind (fun e => (b.ends e).head?) := by
+  simp only [Re.ends]; exact head?_flatMap_total hb
+
+theorem total_seq {a b : Re} (ha : Total a) (hb : Total b) : Total (.seq a b) := by
+  intro s h
+  simp only [Re.ends] at h
+  obtain ⟨e, es, he⟩ := List.exists_cons_of_ne_nil (ha s)
+  rw [he] at h
+  simp at h
+  exact hb e h.1
+
+theorem total_star_set (cs : CSet) : Total (Re.star (.set cs)) := by
+  intro s
+  unfold Re.star
+  rw [ends_rep_set]
+  cases s <;> simp [repSet]
+
+theorem total_opt_set (cs : CSet) : Total (Re.opt (.set cs)) := by
+  intro s
+  rw [ends_opt_set]
+  cases s with
+  | nil => simp
+  | cons c t => by_cases hc : cs.has c = true <;> simp [hc]
+
+theorem total_opt_progress (x : Re) (hp : ∀ s e, e ∈ x.ends s → e.length < s.length) : Total (Re.opt x) := by
+  intro s
+  rw [ends_opt_progress x s (hp s)]
+  simp
+
+theorem dropWhile_append_stop (p : Char → Bool) (b ex : List Char) (hb : ∀ c ∈ b, p c = true)
+    (hex : ex = [] ∨ ∃ c t, ex = c :: t ∧ p c = false) :
+    (b ++ ex).dropWhile p = ex ∧ (b ++ ex).takeWhile p = b := by
+  have h1 : ex.dropWhile p = ex ∧ ex.takeWhile p = [] := by
+    rcases hex with rfl | ⟨c, t, rfl, hc⟩
+    · simp
+    · simp [List.dropWhile_cons, List.takeWhile_cons, hc]
+  constructor
+  · rw [List.dropWhile_append_of_pos hb, h1.1]
+  · rw [List.takeWhile_append_of_pos hb, h1.2, List.append_nil]
+
+theorem dropWhile_head_not (p : Char → Bool) (x : List Char) :
+    x.dropWhile p = [] ∨ ∃ c t, x.dropWhile p = c :: t ∧ p c = false := by
+  induction x with
+  | nil => left; rfl
+  | cons a t ih =>
+    by_cases ha : p a = true
+    · simpa [List.dropWhile_cons, ha] using ih
+    · right; exact ⟨a, t, by simp [List.dropWhile_cons, ha], by simpa using ha⟩
+
 end PP.Regex
